@@ -409,7 +409,7 @@ def gen_dop_value(rng, dop, siblings=None, sib_params=None):
     if isinstance(dop, D.SimpleDop):
         return gen_simple(rng, dop)[0]
     if isinstance(dop, D.DtcDop):
-        return DtcVal(rng.choice(dop.dtcs)[0])
+        return DtcVal(rng.choice(D.effective_dtcs(dop))[0])
     if isinstance(dop, D.Struct):
         return gen_params_value(rng, dop.params)
     if isinstance(dop, D.StaticField):
